@@ -70,9 +70,39 @@ def run(ctx, rep):
                   sample={"prefixes": n, "example": {"prefix": "x; /** d */ // l\n", "doc": scanner.simulate(tab, "x; /** d */ // l\n")}})
         if bad is None:
             rep.floor("K", "prefixes simulated", n, 4000)
+    # ---- N: normalisation pipeline as an extracted model
+    import javadoc_model as JM
+    rep.rule("N", "parse_javadoc is extracted as a pipeline model (three regex constants, replacement strings, trimmed character set, joiner; shape split -> map(trim, replace_all) -> map(replace_all) -> join) and the model is evaluated "
+                  "on a bounded family of doc bodies (1-3 paragraphs, 1-2 lines, star-decorated and bare layouts, LF and CRLF, ASCII / accented / CJK / emoji words, 0-2 @tag clauses, single-line form) against a reference normaliser written from the statement")
+    fpj = facts.fn(JM.PJ)
+    try:
+        model = JM.extract(facts)
+    except Unsupported as e:
+        rep.fail("N", "C18|N|extraction", cfg.where(fpj), "parse_javadoc could not be extracted as a normalisation pipeline (fail closed): %s" % e)
+        model = None
+    if model is not None:
+        badn = None
+        cnt = 0
+        import re as _re
+        try:
+            for bdy in JM.family(ctx.tier == "thorough"):
+                cnt += 1
+                g, w = JM.evaluate(model, bdy), JM.reference(bdy)
+                if g != w:
+                    badn = (bdy, g, w)
+                    break
+        except _re.error as e:
+            badn = ("<regex>", "a regex constant does not compile: %s" % e, "")
+        rep.check(badn is None, "N", "C18|N|normalise|%s" % (repr(badn[0])[:50] if badn else ""), cfg.where(fpj),
+                  "for the doc body %r the extracted normaliser yields %r, the statement asks for %r (decoration removed, lines of a paragraph joined by one space, paragraphs and @tag clauses on separate lines, words preserved)" % (badn if badn else ("-", "-", "-")),
+                  witness={"body": badn[0], "normaliser": badn[1], "expected": badn[2]} if badn else None,
+                  sample={"model": model, "bodies": cnt})
+        if badn is None:
+            rep.floor("N", "doc bodies evaluated", cnt, 50)
+    rep.assumptions += ["for the constructs used (character classes, greedy star / optional, one capture group, leftmost non-overlapping replace_all / split) Python's re and the regex crate agree (rule N evaluates the extracted constants with Python's re)"]
     rep.assumptions += ["TB-1 rustc MIR", "TB-2 @L of the first symbol is the start of the construct's first token"]
     rep.not_decided += ["the backward scanner on prefixes outside the simulated family (rule K is exhaustive only within the bounded structured family; arbitrary garbage between comment and construct is not covered)",
-                        "the normalisation done by the three regex replacements of parse_javadoc (decoration, line joining, @tag clauses) for arbitrary Unicode text"]
+                        "the normalisation of parse_javadoc outside the bounded family of rule N (arbitrary Unicode text, words containing @ * /)"]
 
 
 def dimension_analysis(body):
